@@ -239,4 +239,48 @@ mutual
       ring
 end
 
+
+/-! ### the long-lived simulator object -/
+
+section Session
+variable {C I M S O : Type}
+
+/-- the object follows the specification machine: `_upol` is the compiled circuit in force
+(nothing is said about the circuit held by the wrapped simulator) -/
+def Tracks (env : Env C I M S O) (st : Layer M) (cur : Option C) : Prop :=
+  match cur with
+  | none => st.upol = none
+  | some c => ∃ u, env.compile c = .ok u ∧ st.upol = some u
+
+/-- one request: the relation is kept and the two machines give the same reply -/
+theorem sessionStep_tracks (env : Env C I M S O) (st : Layer M) (cur : Option C) (op : Cmd C I)
+    (h : Tracks env st cur) :
+    Tracks env (sessionStep env st op).1 (specStep env cur op).1 ∧
+      (sessionStep env st op).2 = (specStep env cur op).2 := by
+  cases op with
+  | setCircuit c =>
+    unfold sessionStep specStep
+    cases hc : env.compile c with
+    | error e => exact ⟨h, rfl⟩
+    | ok u => exact ⟨⟨u, hc, rfl⟩, rfl⟩
+  | probs i =>
+    unfold sessionStep specStep answer
+    cases hp : env.prepare i with
+    | error e => exact ⟨h, rfl⟩
+    | ok sp =>
+      obtain ⟨s, p⟩ := sp
+      cases cur with
+      | none =>
+        have hu : st.upol = none := h
+        simp only [hu]
+        exact ⟨h, rfl⟩
+      | some c =>
+        obtain ⟨u, hc, hu⟩ := h
+        simp only [hu, hc]
+        cases hw : env.mkUnitary u p with
+        | error e => exact ⟨⟨u, hc, hu⟩, rfl⟩
+        | ok w => exact ⟨⟨u, hc, hu⟩, rfl⟩
+
+end Session
+
 end PM.C13
